@@ -130,6 +130,9 @@ func (env *SpecEnv) objValue(e *SExpr, o types.Object) TV {
 						return TV{zeroValue(x.Type()), x.Type()}
 					}
 				}
+				if _, known := vc.prog.GlobalInfo[x]; known {
+					return TV{Const(smtName(vc.globalName(x))+".const", sortOf(x.Type())), x.Type()}
+				}
 			}
 			return TV{vc.heapArr(env.st, vc.globalName(x), sortOf(x.Type())), x.Type()}
 		}
